@@ -351,7 +351,8 @@ class FunctionVerifier:
                 self.oblige("index-in-bounds", self.stmt_anchor(node) if node is not None else "load", z3.And(ix >= 0, ix < dim), st, node)
         if len(full) < o.ndim:
             return SArr(a.loc, full)
-        terms = {c: nested_select(t, full) for c, t in o.comps.items()}
+        # simplify beta-reduces select-of-lambda (lambda terms may not occur inside quantifier patterns)
+        terms = {c: z3.simplify(nested_select(t, full)) for c, t in o.comps.items()}
         return self.elem_from_terms(st, o.dtype, terms, add_range=prog)
 
     def coerce_elem(self, st, dtype, val, node, prog=True):
@@ -1397,7 +1398,30 @@ class FunctionVerifier:
         return out
 
     def st_With(self, node, st):
-        raise VerifError("with statement")
+        """ghost only:  with forall_intro(k, lo, hi, body): <proof>   introduces a fresh k in [lo, hi),
+        runs the proof block, checks body(k) and then assumes  forall k in [lo,hi): body(k)"""
+        if not self.ghost_mode or len(node.items) != 1:
+            raise VerifError("with statement")
+        ce = node.items[0].context_expr
+        if not (isinstance(ce, ast.Call) and isinstance(ce.func, ast.Name) and ce.func.id == "forall_intro" and len(ce.args) == 4 and isinstance(ce.args[0], ast.Name)):
+            raise VerifError("unsupported with-block in ghost code: %s" % ast.unparse(ce)[:60])
+        name = ce.args[0].id
+        lo = self.as_int(self.ev(ce.args[1], st, False)).e
+        hi = self.as_int(self.ev(ce.args[2], st, False)).e
+        k = self.fresh_int(name)
+        s2 = st.fork()
+        s2.env[name] = SInt(k)
+        s2.assume(z3.And(k >= lo, k < hi))
+        for s3 in self.run_ghost(node.body, s2):
+            g = self.to_bool(self.ev(ce.args[3], s3, False))
+            self.oblige("ghost-assert", "forall_intro " + ast.unparse(ce.args[3])[:40], g, s3, node)
+        # generalise
+        sq = st.fork()
+        sq.assumes = st.assumes
+        sq.env[name] = SInt(k)
+        body = self.to_bool(self.ev(ce.args[3], sq, False))
+        st.assume(z3.ForAll([k], z3.Implies(z3.And(k >= lo, k < hi), body)))
+        return [(st, FALL)]
 
     # ------------------------------------------------------------------ driver
     def number_call_sites(self, body):
